@@ -177,7 +177,15 @@ Definition unblind_calls_ok (c : case) : bool :=
            && proposal_blinded c
            && Nat.eqb (count_events is_sign_block (o_events obs)) 1
            && match expected_signed c with
-              | Some sp => forallb (fun call => ureq_eqb (snd call) (unblind_request sp)) calls
+              | Some sp =>
+                  forallb (fun call =>
+                    ureq_eqb (snd call) (unblind_request sp)
+                    (* a retry that starts after the submission may have lost its block: the
+                       collector clears the blinded container it reads *)
+                    || match o_submit obs with
+                       | Some (t, _) => (t <? fst call) && ureq_eqb (snd call) {| u_version := sp_version sp; u_conts := [] |}
+                       | None => false
+                       end) calls
               | None => false
               end))
      (indexed 0 (o_unblind obs)).
